@@ -201,6 +201,9 @@ fn main() {
     let s_build = check_pairs(&ctx, &u_build);
     let u_wide = universe(&["0", "9", "10", "4294967296", "9999999999999999999", "18446744073709551615"], &["9", "10", "18446744073709551615", "a"], if quick { 1 } else { 2 }, &[""]);
     let s_wide = check_pairs(&ctx, &u_wide);
+    // hyphenated identifiers: one alphanumeric identifier each in SemVer 2.0.0, never a separator
+    let u_hyph = universe(&["0", "1"], &["rc", "rc-2", "rc-10", "2", "10", "1-0", "-", "rc-", "-1", "a-b", "0-0"], 2, &[""]);
+    let s_hyph = check_pairs(&ctx, &u_hyph);
 
     // sub-universes for triples and max-tag: a strided selection of u_build (keeps build variants and equal-precedence members)
     let tri_n = if quick { 160 } else { 600 };
@@ -215,14 +218,14 @@ fn main() {
     // determinism replay on the build universe
     if check_pairs(&ctx, &u_build).digest != s_build.digest { machinery_error("determinism replay diverged"); }
 
-    let all = s_main.clone().merge(s_build.clone()).merge(s_wide.clone()).merge(s_tri.clone()).merge(s_mt.clone());
+    let all = s_main.clone().merge(s_build.clone()).merge(s_wide.clone()).merge(s_hyph).merge(s_tri.clone()).merge(s_mt.clone());
     let mut cov = Coverage::default();
-    cov.states = (u_main.len() + u_build.len() + u_wide.len()) as u64;
+    cov.states = (u_main.len() + u_build.len() + u_wide.len() + u_hyph.len()) as u64;
     cov.transitions = all.get("pairs");
     cov.evaluations = all.get("pairs") + all.get("triples") + all.get("max_tag_sets");
     cov.traces_validated = cov.evaluations;
     cov.distinct_nontrivial = all.get("want_less") + all.get("want_greater");
-    cov.rule = format!("versions are built as strings and parsed by the real parser; universe U1 = core numbers {nums:?}^3 x pre-release lists of length <=3 over {ids:?} ({} versions, all ordered pairs vs the reference comparator); U2 adds build metadata variants ({}), U3 wide numbers up to u64::MAX ({}); all ordered triples of a {}-element sub-universe (transitivity, no reference); find_max_version_tag on all ordered selections of <=3 tags from {} versions. non-trivial = ordered pairs whose precedence differs (not Equal)", u_main.len(), u_build.len(), u_wide.len(), sub.len(), sub2.len());
+    cov.rule = format!("versions are built as strings and parsed by the real parser; universe U1 = core numbers {nums:?}^3 x pre-release lists of length <=3 over {ids:?} ({} versions, all ordered pairs vs the reference comparator); U2 adds build metadata variants ({}), U3 wide numbers up to u64::MAX ({}); U4 hyphenated identifiers (rc-2, rc-10, 1-0, -, ...) in lists of length <=2 ({}); all ordered triples of a {}-element sub-universe (transitivity, no reference); find_max_version_tag on all ordered selections of <=3 tags from {} versions. non-trivial = ordered pairs whose precedence differs (not Equal)", u_main.len(), u_build.len(), u_wide.len(), u_hyph.len(), sub.len(), sub2.len());
     cov.exhaustive = true;
     cov.samples = vec![json!({"a": u_main[u_main.len()/3].text, "b": u_main[u_main.len()/2].text}), json!({"a": u_build[5].text, "b": u_build[6].text}), json!({"a": u_wide[u_wide.len()-1].text, "b": u_wide[u_wide.len()/2].text})];
     cov.set("clause_counts", all.to_json());
